@@ -55,7 +55,26 @@ fn run_round(actors: &[Actor], rep: &mut Report) -> Outcome {
                     "session-readonly" => json!({"tool": "grep", "args": {"pattern": "seed"}}).to_string(),
                     _ => String::new(),
                 };
-                if a.kind == "task" {
+                if a.kind == "agent-bash" {
+                    // a provider-driven run: the agent loop executes a bash function call
+                    let call = json!({"type": "response.output_item.done", "output_index": 0, "item": {"type": "function_call", "id": format!("fc_{}", a.id), "call_id": format!("call_{}", a.id), "name": "bash", "arguments": json!({"command": stamp_cmd(a.id, "0.08"), "cwd": "."}).to_string()}});
+                    let first = format!("{}{}data: [DONE]\n\n", crate::provider::sse(&json!({"type": "response.created", "response": {"id": format!("resp_{}", a.id)}})), crate::provider::sse(&call));
+                    let provider = crate::provider::ScriptedProvider::start(vec![crate::provider::Resp::Sse { body: first.into_bytes(), chunk: 0, cut_at: None }]);
+                    let (_, v) = call_json(&app.router, "POST", &format!("/threads/{thread_id}/messages"), Some(json!({"content": format!("agent run {}", a.id), "openresponses": {"endpoint": provider.endpoint, "model": "m"}}))).await;
+                    let sid = v["session_id"].as_str().unwrap_or("").to_string();
+                    session_of.insert(sid.clone(), a.id);
+                    let dd = data_dir.clone();
+                    joins.push(tokio::spawn(async move {
+                        let _keep = provider;
+                        for _ in 0..600 {
+                            let text = std::fs::read_to_string(dd.join("events.jsonl")).unwrap_or_default();
+                            if text.lines().any(|l| l.contains("continuity_run_ended") && l.contains(&sid)) {
+                                break;
+                            }
+                            tokio::time::sleep(std::time::Duration::from_millis(15)).await;
+                        }
+                    }));
+                } else if a.kind == "task" {
                     let (_, v) = call_json(&app.router, "POST", "/tasks", Some(json!({"tool": "bash", "args": {"command": stamp_cmd(a.id, "0.08"), "cwd": "."}}))).await;
                     let id = v["task_id"].as_str().unwrap_or("").to_string();
                     let router = app.router.clone();
@@ -185,7 +204,7 @@ fn read_only_tools_leave_the_tree_alone(rep: &mut Report) {
 pub fn run(opts: &Opts) -> Report {
     let mut rep = Report::new(
         "C11",
-        "rounds of 3-7 concurrent actors on one engine: sessions running mutating tool envelopes (bash writing begin/end stamps into the workspace, write, apply_patch, checkpoint create), a read-only tool, background shell tasks through the router, and a bash envelope that times out while its command is still running; stamps give the real mutation intervals; non-trivial = round with >=3 stamp-writing actors, distinct by actor kinds",
+        "rounds of 3-7 concurrent actors on one engine: sessions running mutating tool envelopes, provider-driven agent-loop runs executing a bash function call, (bash writing begin/end stamps into the workspace, write, apply_patch, checkpoint create), a read-only tool, background shell tasks through the router, and a bash envelope that times out while its command is still running; stamps give the real mutation intervals; non-trivial = round with >=3 stamp-writing actors, distinct by actor kinds",
     );
     let mut rng = Rng::new(opts.seed);
     let rounds = if opts.thorough { 60 } else { 14 } * opts.scale;
@@ -194,7 +213,7 @@ pub fn run(opts: &Opts) -> Report {
         let n = rng.range(3, 7) as usize;
         let mut actors: Vec<Actor> = (0..n)
             .map(|id| {
-                let kind = *rng.pick(&["session-bash", "session-bash", "task", "session-write", "session-patch", "session-ckpt", "session-readonly"]);
+                let kind = *rng.pick(&["session-bash", "session-bash", "agent-bash", "agent-bash", "task", "session-write", "session-patch", "session-ckpt", "session-readonly"]);
                 Actor { id, kind, mutating: kind != "session-readonly" }
             })
             .collect();
@@ -229,7 +248,7 @@ pub fn run(opts: &Opts) -> Report {
         // oracle 2: exactly one side-effects frame per mutating tool call of a linked run
         for a in &actors {
             let want = match a.kind {
-                "session-bash" | "session-bash-noisy" | "session-write" | "session-patch" | "session-timeout" => 1,
+                "session-bash" | "session-bash-noisy" | "agent-bash" | "session-write" | "session-patch" | "session-timeout" => 1,
                 _ => 0, // read-only tools, checkpoint envelopes and tasks log no tool side effects on the thread
             };
             let got = out.frames_per_actor.get(&a.id).copied().unwrap_or(0);
@@ -239,11 +258,11 @@ pub fn run(opts: &Opts) -> Report {
         }
         // oracle 3: the order of side-effects frames equals the real order of the stamped mutations
         let stamped_order: Vec<usize> = {
-            let mut v: Vec<(u128, usize)> = ivs.iter().filter(|(k, _, _)| matches!(actors[*k].kind, "session-bash" | "session-bash-noisy")).map(|(k, b, _)| (*b, *k)).collect();
+            let mut v: Vec<(u128, usize)> = ivs.iter().filter(|(k, _, _)| matches!(actors[*k].kind, "session-bash" | "session-bash-noisy" | "agent-bash")).map(|(k, b, _)| (*b, *k)).collect();
             v.sort();
             v.into_iter().map(|(_, k)| k).collect()
         };
-        let logged_order: Vec<usize> = out.thread_side_effects.iter().cloned().filter(|k| matches!(actors[*k].kind, "session-bash" | "session-bash-noisy")).collect();
+        let logged_order: Vec<usize> = out.thread_side_effects.iter().cloned().filter(|k| matches!(actors[*k].kind, "session-bash" | "session-bash-noisy" | "agent-bash")).collect();
         if stamped_order != logged_order {
             rep.oracle_failure("C11|side-effects-order", &format!("side-effects frames in order {logged_order:?}, mutations happened in order {stamped_order:?}"), case.clone());
         }
